@@ -362,6 +362,8 @@ func TestC17(t *testing.T) {
 			idle[id] = true
 			hist = append(hist, "return")
 		}
+		var kept, keptCopy [][]byte
+		keptN := 0
 		rt.Repeat(map[string]func(*rapid.T){
 			"get":    func(*rapid.T) { get() },
 			"return": func(*rapid.T) { ret() },
@@ -378,6 +380,24 @@ func TestC17(t *testing.T) {
 				}
 				if msg := usable(kind, held[id], tm, nm); msg != "" {
 					failf(rt, c, "C17 %s(size %d): held object not usable: %s; history %v", kind, size, msg, hist)
+				}
+				// what an encode call handed out stays the caller's, whoever holds the object next
+				keptN++
+				var kb []byte
+				switch x := held[id].(type) {
+				case *hessian.Encoder:
+					kb, _ = x.Encode([]interface{}{int32(keptN), "kept", int32(keptN * 31)})
+				case hessian.Serializer:
+					kb, _ = x.ToBytes([]interface{}{int32(keptN), "kept", int32(keptN * 31)})
+				}
+				if kb != nil {
+					kept = append(kept, kb)
+					keptCopy = append(keptCopy, append([]byte{}, kb...))
+				}
+				for i := range kept {
+					if !bytes.Equal(kept[i], keptCopy[i]) {
+						failf(rt, c, "C17 %s(size %d): the octets an encode call handed out earlier (%x) were overwritten by a later call on a pooled object (now %x); history %v", kind, size, keptCopy[i], kept[i], hist)
+					}
 				}
 				hist = append(hist, "use")
 			},
